@@ -932,8 +932,7 @@ impl<'a, 'b> GeneratorState<'a> {
                     }
                     _ => false,
                 } {
-                    let l = self.generate_expr(lhs, pos, false, false)?;
-                    let r = self.generate_expr(rhs, pos, false, false)?;
+                    let (l, r) = self.generate_operands(lhs, rhs, pos, false, false)?;
                     if immediate_special {
                         if let ExprType::Immediate(a) = l {
                             if let ExprType::Immediate(b) = r {
